@@ -40,7 +40,7 @@ def call_method(I, recv, name, argexprs, scope, frame, g, hint, e):
         if name == "len":
             return strprof.digits(recv[1])
         raise Unsupported("method %s on a formatted number" % name)
-    if isinstance(recv, IterV) and name in ("scan", "enumerate", "skip_while", "take_while", "last", "max"):
+    if isinstance(recv, IterV) and name in ("scan", "enumerate", "skip_while", "take_while", "last", "max", "map_while"):
         r = strprof.iter_extra(I, recv, name, argexprs, scope, frame, g, hint, e)
         if r is not NotImplemented:
             return r
@@ -82,6 +82,11 @@ def call_method(I, recv, name, argexprs, scope, frame, g, hint, e):
             return mkbool(recv.some)
         if name == "is_none":
             return mkbool(-recv.some)
+        if name in ("is_some_and", "is_none_or"):
+            f = arg()
+            gs = c.and2(g, recv.some)
+            r = lit(I.deref(I.call_closure(f, gs, [recv.val]))) if gs != F else F
+            return mkbool(c.and2(recv.some, r) if name == "is_some_and" else c.or2(-recv.some, r))
         if name == "unwrap_or_else":
             f = arg()
             gn = c.and2(g, -recv.some)
@@ -91,6 +96,19 @@ def call_method(I, recv, name, argexprs, scope, frame, g, hint, e):
             return merge(recv.some, recv.val, d)
         if name == "unwrap_or":
             return merge(recv.some, recv.val, arg())
+        if name == "unwrap_or_default":
+            v = recv.val
+            if isinstance(v, (VecL, VecA)) or v is UNDEF:
+                d = VecL()
+            elif is_int(v):
+                d = 0
+            else:
+                raise Unsupported("unwrap_or_default of %r" % (v,))
+            if recv.some == T:
+                return v
+            if recv.some == F or v is UNDEF:
+                return d
+            return merge(recv.some, v, d)
         if name == "or_else":
             f = arg()
             gn = c.and2(g, -recv.some)
@@ -223,6 +241,12 @@ def call_method(I, recv, name, argexprs, scope, frame, g, hint, e):
             return mkbool(recv.is_empty())
         if name == "len":
             return recv.length()
+        if name == "extend":
+            for gi, x in I.to_iter(arg(), g).items:
+                gg = c.and2(g, gi)
+                if gg != F:
+                    recv.push(gg, x)
+            return UNIT
         if name in ("to_vec", "to_owned") and isinstance(recv, VecA):
             return recv.clone()
         if name == "join" and isinstance(recv, VecL):
@@ -338,6 +362,10 @@ def call_method(I, recv, name, argexprs, scope, frame, g, hint, e):
             return EnumV("Entry", {"Occupied": (occ, (EntryV(recv, k),)), "Vacant": (-occ, (EntryV(recv, k),))})
         if name in ("iter", "into_iter"):
             return IterV(recv.items())
+        if name in ("values", "into_values"):
+            return IterV([(gi, kv[1]) for gi, kv in recv.items()])
+        if name in ("keys", "into_keys"):
+            return IterV([(gi, kv[0]) for gi, kv in recv.items()])
         if name == "is_empty":
             return mkbool(recv.is_empty())
         if name == "len":
